@@ -43,12 +43,13 @@ def make_pool(rng, size=None, style=None):
             pool.append(k)
 
     if style == "huge":
-        # keys of 520-700 bytes that share 515+ bytes and then differ (common prefixes
-        # beyond 1024 nibbles / 4096 bits)
-        stem = bytes(byte() for _ in range(rng.choice([515, 520, 600])))
+        # keys of 260-700 bytes that share 257+ bytes and then differ (common prefixes
+        # beyond 512 or 1024 nibbles / 2048 or 4096 bits)
+        stem = bytes(byte() for _ in range(rng.choice([257, 300, 515, 520, 600])))
+        cut = len(stem) - 1
         for _ in range(min(size, 6)):
             add(stem + bytes(byte() for _ in range(rng.choice([5, 20, 80]))))
-        add(stem[:514] + bytes([stem[514] ^ 0x10]) + b"\x01")
+        add(stem[:cut] + bytes([stem[cut] ^ 0x10]) + b"\x01")
         return pool
 
     if style == "deepcomb":
@@ -200,6 +201,11 @@ MAGIC = [
     b"\xc0",
     b"\x00" * 32,
 ]
+
+
+def rare_huge(rng, p=0.015):
+    """Pool style for a run: now and then the huge-key pool, else the default mix."""
+    return "huge" if rng.random() < p else None
 
 
 def make_values(rng, n=None):
